@@ -740,6 +740,84 @@ func c23Run(x *c23Ctx, t *testing.T, cs c23Case) { //nolint:cyclop,gocognit,main
 	omu.Unlock()
 	c.Add("first_path_arrivals_discarded_by_the_loss_injector", int(drop.dropped.Load()))
 	c.Outcome(fmt.Sprintf("delivered-all|tracks=%d", len(locals)))
+
+	// rename rounds (single-track cases): the sender replaces its track by one with another stream id / track
+	// id / both (same SSRC, the receiver is not restarted) and the peers renegotiate; the running remote track
+	// must then report the msid of the sender's NEW description
+	if cs.Bundle == "single" {
+		l := locals[0]
+		l.mu.Lock()
+		remote := l.remote
+		l.mu.Unlock()
+		var sender *RTPSender
+		for _, sd := range snd.PC.GetSenders() {
+			if sd.Track() == TrackLocal(l.track) {
+				sender = sd
+			}
+		}
+		if remote == nil || sender == nil {
+			vPairFatalf("rename round: no remote track / sender for %s", cs.key())
+		}
+		for _, variant := range []string{"stream-only", "track-only", "both"} {
+			id, stream := sender.Track().ID(), sender.Track().StreamID()
+			if variant != "track-only" {
+				stream += "-s"
+			}
+			if variant != "stream-only" {
+				id += "-t"
+			}
+			nt, err := NewTrackLocalStaticRTP(l.track.Codec(), id, stream)
+			if err != nil {
+				vPairFatalf("rename round: track: %v", err)
+			}
+			if err = sender.ReplaceTrack(nt); err != nil {
+				vPairFatalf("rename round: ReplaceTrack: %v (%s)", err, cs.key())
+			}
+			var r2 vPairSignalResult
+			if cs.OffererIsSende {
+				r2 = p.Signal(snd, rcv, vPairSignalHooks{})
+			} else {
+				r2 = p.Signal(rcv, snd, vPairSignalHooks{})
+			}
+			if r2.OfferApplyErr != nil || r2.AnswerApplyErr != nil {
+				viol("renegotiation-refused|rename="+variant, fmt.Sprintf("renegotiation after ReplaceTrack was refused: %v %v", r2.OfferApplyErr, r2.AnswerApplyErr), nil)
+
+				break
+			}
+			// the work SetRemoteDescription queued (startRTP -> configureRTPReceivers) has run when Done returns
+			rcv.PC.ops.Done()
+			snd.PC.ops.Done()
+			sdp2 := r2.Offer.SDP
+			if !cs.OffererIsSende {
+				sdp2 = r2.Answer.SDP
+			}
+			var sec *c23SDPTrack
+			t2 := c23ScanSender(sdp2)
+			for i := range t2 {
+				for _, ps := range t2[i].Primaries {
+					if ps == uint32(remote.SSRC()) {
+						sec = &t2[i]
+					}
+				}
+			}
+			if sec == nil {
+				c.Outcome("rename-round|ssrc-no-longer-announced")
+
+				break
+			}
+			if sec.TrackID != id || sec.StreamID != stream {
+				c.Outcome("rename-round|senders-sdp-keeps-old-msid|" + variant)
+
+				continue
+			}
+			if remote.ID() != sec.TrackID || remote.StreamID() != sec.StreamID {
+				viol(fmt.Sprintf("msid|after-rename=%s|kind=%s", variant, sec.Kind),
+					fmt.Sprintf("after ReplaceTrack (%s) and renegotiation the sender's description says a=msid:%s %s, the running TrackRemote reports stream %q track %q", variant, sec.StreamID, sec.TrackID, remote.StreamID(), remote.ID()), nil)
+			} else {
+				c.Distinct("rename-round|" + variant + "|kind=" + sec.Kind)
+			}
+		}
+	}
 	p.Close()
 	readers.Wait()
 }
